@@ -325,13 +325,13 @@ def safe_map_indexed_values(data_indices, data_values, map_field, map_filter, em
 
 @exetera_njit
 def safe_map_values(data_field, map_field, map_filter, empty_value=None):
+    # result starts out as zeros / empty strings, which is the default empty value
     result = np.zeros_like(map_field, dtype=data_field.dtype)
-    empty_val = result[0] if empty_value is None else empty_value
     for i in range(len(map_field)):
         if map_filter[i]:
             result[i] = data_field[map_field[i]]
-        else:
-            result[i] = empty_val
+        elif empty_value is not None:
+            result[i] = empty_value
     return result
 
 
